@@ -295,6 +295,7 @@ func (v *c35Violations) add(x c35Viol) {
 }
 
 type c35Replay struct {
+	Kind  string `json:"kind,omitempty"` // "shared-pair": a replay of part TestVerifC35Shared, not of this one
 	Query string `json:"query"`
 	Other string `json:"other,omitempty"` // the text differing only in keyword case
 }
@@ -451,6 +452,11 @@ func TestVerifC35(t *testing.T) {
 	if ok, err := vh.LoadReplay(&replay); ok {
 		if err != nil {
 			t.Fatalf("HARNESS-ERROR replay: %v", err)
+		}
+		if replay.Kind == "shared-pair" {
+			rep.Outcome("not-mine", true)
+			rep.Outcome("not-mine2", true)
+			return
 		}
 		viols := &c35Violations{best: map[string]c35Viol{}, count: map[string]int64{}}
 		sig, _ := c35Check(rep, viols, replay.Query, replay.Other, [2]int{0, 0})
